@@ -145,7 +145,10 @@ def run_history(job):
                 if "clock" in run and job.get("set_clock"):
                     job["set_clock"](run["clock"])
                 before = snapshot() if job.get("snapshot") else None
+                inputs_before = snapshot("inputs") if job.get("snapshot_inputs") else None
                 o = do_run(paths, run)
+                if inputs_before is not None:
+                    o["inputs_before"] = inputs_before
                 if job.get("snapshot"):
                     o["before"], o["after"] = before, snapshot()
                 if job.get("inspect"):
